@@ -223,6 +223,11 @@ def apply_op(w, op):
         st = subs[what].get(item)
         if st is None:
             return False
+        if isinstance(cid, str) and cid.startswith("@"):
+            k = int(cid[1:])
+            if k >= len(st):
+                return False
+            cid = st[k]
         # one-shot callbacks that already fired have been dropped by the discovery itself
         for c in [c for c in st if w.cbs[c]["one_shot"] and any(e[0] == c for e in w.events)]:
             st.remove(c)
@@ -296,7 +301,34 @@ def skeleton(rng):
     a, b, c3 = rng.sample(AGENTS, 3)
     c = rng.choice(COMPS)
     cb, one = rng.random() < 0.7, False
-    kind = rng.choice(["replica-sub-during-reregistration", "migration", "agent-rejoins", "migration-with-replicas"])
+    kind = rng.choice(["replica-sub-during-reregistration", "migration", "agent-rejoins", "migration-with-replicas",
+                       "several-callbacks-on-one-item"])
+    if kind == "several-callbacks-on-one-item":
+        # two or three callbacks on the same agent / computation / replica set, one of them cancelled, then a change
+        what = rng.choice(["replica", "computation", "agent"])
+        n = rng.randint(2, 3)
+        if what == "replica":
+            ops = [("register_computation", a, c), ("subscribe_computation", b, c, False, False), ("subscribe_computation", c3, c, False, False), ("drain",),
+                   ("register_replica", c3, c)]
+            if rng.random() < 0.7:
+                ops.append(("drain",))
+            ops += [("subscribe_replica", b, c, True, False) for _ in range(n)]
+            if rng.random() < 0.5:
+                ops.append(("drain",))
+            ops += [("unsubscribe_replica", b, c, "@%d" % rng.randrange(n)), ("drain",)]
+            if rng.random() < 0.6:
+                ops += [("unregister_replica", c3, c), ("drain",)]
+        elif what == "computation":
+            ops = [("register_computation", a, c)] + [("subscribe_computation", b, c, True, False) for _ in range(n)]
+            if rng.random() < 0.5:
+                ops.append(("drain",))
+            ops += [("unsubscribe_computation", b, c, "@%d" % rng.randrange(n)), ("drain",), ("unregister_computation", a, c), ("drain",)]
+        else:
+            ops = [("subscribe_agent", a, b, True, False) for _ in range(n)]
+            if rng.random() < 0.5:
+                ops.append(("drain",))
+            ops += [("unsubscribe_agent", a, b, "@%d" % rng.randrange(n)), ("drain",)]
+        return kind, [list(o) for o in ops]
     if kind == "replica-sub-during-reregistration":
         ops = [("register_computation", a, c), ("subscribe_computation", b, c, False, False), ("subscribe_computation", c3, c, False, False),
                ("drain",), ("unregister_computation", a, c), ("subscribe_replica", b, c, cb, one), ("register_computation", a, c)]
